@@ -77,7 +77,7 @@ func TokenSoup(r *rand.Rand) string {
 		case k < 40:
 			b.WriteString(soupPunct[r.Intn(len(soupPunct))])
 		case k < 44:
-			b.WriteString(pick(r, "(", ")", "(", ")", "( )", "()"))
+			b.WriteString(pick(r, "(", ")", "(", ")", "( )", "()", "(\n", "\n)", "\n) x", ") // c"))
 		case k < 52:
 			b.WriteString(soupStrings[r.Intn(len(soupStrings))])
 		case k < 62:
